@@ -1,5 +1,6 @@
 import RV.Scalar
 import RV.Model.Tree
+import RV.Model.Boundary
 /-
   Model of src/collision.c (+ reb_simulation_remove_particle of src/particle.c:336-446).
 
@@ -436,6 +437,22 @@ def purgeFlagged (clampNActive : Bool) (s : Sim (Part K)) : Sim (Part K) :=
     -- `clampNActive`: tree.c (9a64eba) `if (r->N_active > (int)r->N) r->N_active = r->N;`
     { s with ps := ps', nActive := if clampNActive && s.nActive > n then n else s.nActive }
   else s
+
+/-- `reb_boundary_check`'s open-boundary test applied to a particle (boundary.c:42-61, the model of C15) -/
+def outsideBox (bx bY bz : K) (p : Part K) : Bool :=
+  RV.Boundary.outside bx bY bz ⟨p.x, p.y, p.z, p.vy⟩
+
+/-- what `reb_simulation_step` hands to `reb_collision_search` at the end of a step with an OPEN boundary
+    (rebound.c:153-166): `reb_boundary_check` removes the particles that left the box — without a tree at once
+    (swap-with-last, `i--` re-check; shift-down when `track_energy_offset`), with a tree they are only flagged and
+    `tree_needs_update` makes the following `reb_simulation_update_tree` drop them (order of the survivors then is the
+    tree sweep's: compared as a set).  The search must never see a particle that left the box. -/
+def searchInputOpen (bx bY bz : K) (teo clampNActive : Bool) (s : Sim (Part K)) : Sim (Part K) :=
+  let out := outsideBox bx bY bz
+  if s.tree then
+    purgeFlagged clampNActive { s with ps := RV.Boundary.openMark out flagPart s.ps }
+  else if teo then { s with ps := RV.Boundary.openLoopSorted out 0 s.ps }
+  else { s with ps := RV.Boundary.openLoop out 0 s.ps }
 
 /-- `reb_collision_resolve_halt` (collision.c:760-765) without the status word -/
 def halt (t : K) (s : Sim (Part K)) (c : Coll (GB K)) : Sim (Part K) × Nat :=
